@@ -15,13 +15,13 @@ CHECKS = {
          "pastification scheme model-checked (delayed original robustness) on bounded-future universes, deviation-on configs must fail; recorded monitors validated against Sig(original) delayed by the horizon", "4 C03"),
  "C10": ("TLC: Reset enabled in every state of the online machine (action property + fresh-replay invariant) + trace validation against the model and a fresh real object",
          "reset reachable at every point of every update history in the model; recorded reset runs (multiple resets, reset before first update) compared with the model and with a brand-new object", "4 C10"),
- "C13": ("TLC model checking of the counter machine over gap-class sequences + trace validation online and offline",
-         "counter = number of out-of-tolerance gaps model-checked over all gap-class sequences/tolerances with Reset; recorded counters for 9 unit configurations validated after every call", "4 C13"),
- "C06": ("TLC model checking of the online machine under the 5 interface-aware modes against Sem!Sig (RhoIA) + trace validation of discrete-time monitors of all semantics",
+ "C13": ("TLC model checking of the counter machine over gap-class sequences (actions Update, Reset, Reconfigure, Retolerance) + TLAPS proof of the inductive invariant for all lengths + Apalache symbolic check + trace validation online and offline, incl. TLC-simulated behaviours replayed",
+         "counter = number of out-of-tolerance gaps model-checked over all gap-class sequences/tolerances with Reset and re-configuration; proved inductive for unbounded traces (spec/proofs/CounterInd.tla); recorded counters for 12 unit configurations validated after every call", "4 C13"),
+ "C06": ("TLC model checking of the online machine under the 5 interface-aware modes against Sem!Sig (RhoIA), of the offline machine with Reconfigure, and of the dense-time operational models + trace validation of discrete- and dense-time monitors of all semantics, incl. TLC-simulated behaviours with re-configuration replayed",
          "interface-aware predicate clause modelled once (Sem!PredIA) and used by both the declarative semantics and the operational online model; model-checked for 5 semantics x all IO assignments; recorded offline/online runs validated, STANDARD compared under opposite declarations", "4 C06"),
  "C07": ("TLC model checking of theorems SignSound/BallSound over Sem!Sig and Sem!Sat + trace validation of the sign of recorded values against Sem!Sat and of Sat-invariance on perturbed traces",
          "sign and magnitude soundness are theorems of the specification checked on all short traces; the implementation's reported numbers are bound directly to the Boolean semantics (not through Sig)", "4 C07"),
- "C09": ("trace validation of modular vs inlined real objects (offline, online, pastified) against the model and each other; TLC model checking of shared operator memories",
+ "C09": ("trace validation of modular vs inlined real objects (offline, online, pastified, re-parsed) against the model and each other; TLC model checking of shared operator memories and of the offline machine with Reparse, TLC-simulated behaviours replayed",
          "random decompositions into sub-specifications/constants via both API forms; read-back AST must equal the inlined formula; both objects validated against the machine and compared", "4 C09"),
  "C11": ("TLC model checking of K=2 interleavings (isolation action property) + trace validation of interleaved executions on shared caller data under several PYTHONHASHSEED values",
          "isolation is an action property of the machine; recorded interleaved runs with shared caller-owned data, repeated evaluate(), and 4-16 hash seeds are validated by one deterministic specification and compared across seeds", "4 C11"),
@@ -62,7 +62,6 @@ m = {"version": 1,
      "checks": checks,
      "notes": "see DESIGN.md; known findings in known_findings.json",
      "not_applicable": [{"property_id": p["id"], "reason": "check not built yet (work in progress)"} for p in props if p["id"] not in CHECKS]}
-if not m["not_applicable"]:
-    del m["not_applicable"]
+# (kept, empty: every property of properties.jsonl is claimed)
 json.dump(m, open(os.path.join(V, "MANIFEST.json"), "w"), indent=1)
 print("checks:", len(checks))
